@@ -374,7 +374,135 @@ func (c *FnCtx) execIf(st *State, x *ast.IfStmt) []Out {
 			outs = append(outs, Out{st: e})
 		}
 	}
+	if c.contract != nil && c.contract.Merge {
+		outs = c.mergeNormal(outs)
+	}
 	return outs
+}
+
+// mergeNormal joins the normal continuations of a branching statement into one state: the facts each path added
+// after the common prefix of the path conditions become one disjunction of conjunctions, and every variable / heap
+// version / ghost that differs gets a fresh name defined per path. Exact (no abstraction): the merged state denotes
+// the union of the merged paths.
+func (c *FnCtx) mergeNormal(outs []Out) []Out {
+	var normal []Out
+	var rest []Out
+	for _, o := range outs {
+		if o.flow == FNormal {
+			normal = append(normal, o)
+		} else {
+			rest = append(rest, o)
+		}
+	}
+	if len(normal) < 2 {
+		return outs
+	}
+	base := normal[0].st
+	// common prefix of the path conditions
+	n := len(base.pc)
+	for _, o := range normal[1:] {
+		if len(o.st.guards) != len(base.guards) {
+			return outs
+		}
+		k := 0
+		for k < n && k < len(o.st.pc) && o.st.pc[k] == base.pc[k] {
+			k++
+		}
+		n = k
+	}
+	m := base.clone()
+	m.pc = append([]*Term(nil), base.pc[:n]...)
+	m.ret = nil
+	extras := make([][]*Term, len(normal))
+	for i, o := range normal {
+		extras[i] = append([]*Term(nil), o.st.pc[n:]...)
+	}
+	def := func(i int, nt, v *Term) { extras[i] = append(extras[i], mkEq(nt, v)) }
+	// variables in scope in every path
+	for obj, v0 := range base.vars {
+		same, all := true, true
+		for _, o := range normal[1:] {
+			v, ok := o.st.vars[obj]
+			if !ok {
+				all = false
+				break
+			}
+			if v != v0 && v.String() != v0.String() {
+				same = false
+			}
+		}
+		if !all {
+			delete(m.vars, obj)
+			continue
+		}
+		if same {
+			continue
+		}
+		nt := c.smt.freshConst("mg_"+obj.Name(), v0.Sort)
+		nt.GoT = v0.GoT
+		for i, o := range normal {
+			def(i, nt, o.st.vars[obj])
+		}
+		m.vars[obj] = nt
+	}
+	mergeMap := func(get func(*State) map[string]*Term, prefix string) bool {
+		names := map[string]bool{}
+		for _, o := range normal {
+			for k := range get(o.st) {
+				names[k] = true
+			}
+		}
+		for k := range names {
+			v0, ok0 := get(base)[k]
+			same := ok0
+			for _, o := range normal[1:] {
+				v, ok := get(o.st)[k]
+				if !ok || !ok0 {
+					// a heap first touched on one path only: its initial version is created lazily on read; keep it
+					// only if every path has a version
+					return false
+				}
+				if v != v0 && v.String() != v0.String() {
+					same = false
+				}
+			}
+			if same {
+				continue
+			}
+			nt := c.smt.freshConst(prefix+k, v0.Sort)
+			nt.GoT = v0.GoT
+			for i, o := range normal {
+				def(i, nt, get(o.st)[k])
+			}
+			get(m)[k] = nt
+		}
+		return true
+	}
+	if !mergeMap(func(s *State) map[string]*Term { return s.heap }, "mgh_") || !mergeMap(func(s *State) map[string]*Term { return s.ghost }, "mgg_") {
+		return outs
+	}
+	sameAlloc := true
+	for _, o := range normal[1:] {
+		if (o.st.alloc == nil) != (base.alloc == nil) {
+			return outs
+		}
+		if o.st.alloc != nil && o.st.alloc.String() != base.alloc.String() {
+			sameAlloc = false
+		}
+	}
+	if !sameAlloc {
+		nt := c.smt.freshConst("mg_alloc", base.alloc.Sort)
+		for i, o := range normal {
+			def(i, nt, o.st.alloc)
+		}
+		m.alloc = nt
+	}
+	var disj []*Term
+	for _, ex := range extras {
+		disj = append(disj, mkAnd(ex...))
+	}
+	m.pc = append(m.pc, mkOr(disj...))
+	return append(rest, Out{st: m})
 }
 
 func (c *FnCtx) execSwitch(st *State, x *ast.SwitchStmt) []Out {
